@@ -3,7 +3,7 @@ from __future__ import annotations
 
 import ast
 import re
-from typing import Dict, List, Optional, Tuple
+from typing import Dict, List, Optional, Set, Tuple
 
 from .. import rx
 from ..collect import Path, callee_is, run_paths
@@ -396,6 +396,8 @@ def run(p: Program, rep: Report, tier: str) -> None:
         OPT = ("attr", ("attr", ("param", "self"), "content_type"), "options")
         seen_call = False
         verdicts = {"boundary": None, "charset": None, "call": None}
+        unread: Set[str] = set()
+        okc_pre = lambda c__: c__[0] == "call" and c__[1] == ("attr", OPT, "get") and c__[2] == (("const", "charset"), ("const", "utf8"))  # noqa: E731
         for pa in fpaths:
             hc = [e for e in pa.events if e.kind == "call" and e.a[0] in ("func", "closure") and e.a[1].startswith("baize.multipart_helper:")]
             if not hc:
@@ -415,6 +417,14 @@ def run(p: Program, rep: Report, tier: str) -> None:
                 b_, c_ = a[1], a[2]
                 okb = b_[0] == "call" and b_[1][0] == "attr" and b_[1][2] == "encode" and b_[1][1] == ("sub", OPT, ("const", "boundary")) and len(b_[2]) == 1 and b_[2][0][0] == "const" \
                     and str(b_[2][0][1]).lower().replace("_", "-") in ("latin-1", "latin1", "iso-8859-1", "l1")
+                def _unread(t_):
+                    # the value comes out of a repository function / class the paths did not open (a public value class, a helper
+                    # outside the unit): what it computes is not on the path
+                    return any(u[0] == "call" and (u[1][0] in ("func", "closure", "cls") or (u[1][0] == "attr" and any(w[0] == "call" and w[1][0] == "cls" for w in subterms(u[1][1])))) for u in subterms(t_))
+                if not okb and _unread(b_):
+                    unread.add("boundary")
+                if not okc_pre(c_) and _unread(c_):
+                    unread.add("charset")
                 if not okb and verdicts["boundary"] is None:
                     verdicts["boundary"] = show(b_)[:70]
                 okc = c_[0] == "call" and c_[1] == ("attr", OPT, "get") and c_[2] == (("const", "charset"), ("const", "utf8"))
@@ -425,10 +435,14 @@ def run(p: Program, rep: Report, tier: str) -> None:
         else:
             if verdicts["boundary"] is None:
                 rep.ok("R1.5", f"{side}: boundary = content-type boundary parameter encoded as Latin-1")
+            elif "boundary" in unread:
+                rep.undecide("R1.5", f"{side}: the boundary is computed by a repository function/class outside the analysed unit: {verdicts['boundary']}")
             else:
                 rep.violation("R1.5", construct(form, text="boundary encoding"), where(form), f"{side}: the boundary handed to the decoder is not the Latin-1 encoding of the Content-Type boundary parameter (got {verdicts['boundary']})")
             if verdicts["charset"] is None:
                 rep.ok("R1.5", f"{side}: multipart charset default utf8")
+            elif "charset" in unread:
+                rep.undecide("R1.5", f"{side}: the multipart charset is computed by a repository function/class outside the analysed unit: {verdicts['charset']}")
             else:
                 rep.violation("R1.5", construct(form, text="charset default"), where(form), f"{side}: multipart charset default is not utf8 (got {verdicts['charset']})")
             if verdicts["call"] is None:
